@@ -22,6 +22,8 @@ import Anko.Gen.ParserGen
 import Anko.Gen.Prec
 import Anko.Model.PrecTable
 import Anko.Model.Num
+import Anko.Gen.Grammar
+import Anko.Props.GrammarTable
 
 namespace Anko.C03
 open Anko Anko.Pratt Anko.PrecTable
@@ -305,5 +307,13 @@ example : decDigits 4095 = [52, 48, 57, 53] := by simp [decDigits, digitChar]
 parser/parser.go.y reproduces the committed parser/parser.go byte for byte (regenerated on every
 run), so facts read off the grammar are facts about the running parser. -/
 theorem committed_parser_is_generated_from_grammar : Gen.ParserGen.committedParserIsGenerated = true := by decide
+
+/-! ### The productions and semantic actions of the grammar (regenerated: Gen/Grammar)
+
+Every production of parser/parser.go.y with its semantic action (which node is built, which of $1 ... $n goes into which field, which position is set) and
+the %type / %token declarations are the ones written down in Props/GrammarTable - the grammar the reference reading (PrecTable, Pratt) and the
+metamorphic stream were audited against. With `committed_parser_is_generated_from_grammar` (Gen/ParserGen) the compiled parser is pinned too. Any edit of these functions - also a harmless one - breaks this obligation by name; the check then
+searches model and implementation for a failing input (DESIGN.md 13.3). -/
+theorem grammar_actions_are_the_audited_ones : Gen.Grammar.leaves = Tables.grammar := by decide +kernel
 
 end Anko.C03
